@@ -16,11 +16,11 @@ import (
 func init() {
 	Register(&Rule{
 		ID: "C25", Section: "5 C25",
-		Technique: "taint-style instance table (5 sink operand classes of Request.write/Header.WriteSubset x 3 frontend sources): value-flow of each wire string back to its origin, sanitiser recognition at the sinks (strings.Replacer table, net/url parse gate), validator recognition at the sources (path rules in the HPACK emit closure of readMetaFrame, validator-gate search in the SPDY parser) with the validators' verdict for CR/LF/NUL decided by conditional constant propagation; dominance order of the writes in Request.write; use-after-release search over storage-sharing SSA values for the pooled header sorter",
+		Technique: "taint-style instance table (5 sink operand classes of Request.write/Header.WriteSubset x 3 frontend sources): value-flow of each wire string back to its origin, sanitiser recognition at the sinks (strings.Replacer table, net/url parse gate), validator recognition at the sources (path rules in the HPACK emit closure of readMetaFrame, validator-gate search in the SPDY parser) with the validators' verdict for CR/LF/NUL decided by conditional constant propagation; dominance order of the writes in Request.write; use-after-release search over storage-sharing SSA values for the pooled header sorter; path walk from every body-consuming call to the returns with phi resolution and nil-test bookkeeping (error delivered or known nil)",
 		Meta: core.Meta{
 			Level:       "other",
-			Explanation: "Decides, for every string Request.write / Header.WriteSubset / transferWriter.WriteHeader put on the backend connection: (sinks) the request line is \"%s %s HTTP/1.1\\r\\n\" of (Method, target) and is written before everything else, the Host line is \"Host: %s\\r\\n\", header lines are key \": \" value \"\\r\\n\" with the value passed through headerNewlineToSpace (a Replacer that maps both CR and LF to CR/LF-free text), the header block is terminated by one CRLF after the header lines and before the body, framing headers of the client are excluded from the copied header map, the request-target is either an escaped URL.RequestURI(), or the raw RequestURI only under a successful url.ParseRequestURI of that same string, or the host; (sources) which call produces Method, Host, RequestURI, URL and Header in each of the three frontends (HTTP/1 ReadRequest: the request line / header block read by the line reader; HTTP/2 newWriterAndRequest: MetaHeadersFrame pseudo values and the header map built from RegularFields; SPDY newWriterAndRequest: the header block parsed by parseHeaderValueBlock); (validators) in readMetaFrame's emit closure a field reaches mh.Fields only if validHeaderFieldValue(hf.Value) held and, for non-pseudo fields, validHeaderFieldName(hf.Name) held (every failing verdict stores a non-nil error that is tested before the append and makes readMetaFrame fail), validHeaderFieldValue rejects CR, LF and NUL, validHeaderFieldName accepts only RFC 7230 token bytes; for SPDY a validity gate over name / value bytes must dominate Header.Add in parseHeaderValueBlock (or the request construction). Each (sink, source) pair is discharged by a sink sanitiser or a source validator. (pool) after a pooled serialisation object (headerSorter) is handed back to its free list - send on a package-level channel of pointers, sync.Pool.Put, or a helper doing so - no path uses or returns the object or a value sharing its storage, so the header lines being written cannot be overwritten by a concurrent request. Not covered: rewrites by modules between frontend and transport, SP inside an HTTP/2 :method, bare CR in HTTP/1 lines (the line reader only excludes LF), equality of forwarded and accepted fields, the Trailer announcement line (keys come from validated values).",
-			RuleText:    "obligations = sink shape/order/sanitiser instances, h2 validator path instances, origin of each Request field per frontend, 15 (sink operand, source) pairs, each free-list release site of bfe_http / textproto / bfe_bufio",
+			Explanation: "Decides, for every string Request.write / Header.WriteSubset / transferWriter.WriteHeader put on the backend connection: (sinks) the request line is \"%s %s HTTP/1.1\\r\\n\" of (Method, target) and is written before everything else, the Host line is \"Host: %s\\r\\n\", header lines are key \": \" value \"\\r\\n\" with the value passed through headerNewlineToSpace (a Replacer that maps both CR and LF to CR/LF-free text), the header block is terminated by one CRLF after the header lines and before the body, framing headers of the client are excluded from the copied header map, the request-target is either an escaped URL.RequestURI(), or the raw RequestURI only under a successful url.ParseRequestURI of that same string, or the host; (sources) which call produces Method, Host, RequestURI, URL and Header in each of the three frontends (HTTP/1 ReadRequest: the request line / header block read by the line reader; HTTP/2 newWriterAndRequest: MetaHeadersFrame pseudo values and the header map built from RegularFields; SPDY newWriterAndRequest: the header block parsed by parseHeaderValueBlock); (validators) in readMetaFrame's emit closure a field reaches mh.Fields only if validHeaderFieldValue(hf.Value) held and, for non-pseudo fields, validHeaderFieldName(hf.Name) held (every failing verdict stores a non-nil error that is tested before the append and makes readMetaFrame fail), validHeaderFieldValue rejects CR, LF and NUL, validHeaderFieldName accepts only RFC 7230 token bytes; for SPDY a validity gate over name / value bytes must dominate Header.Add in parseHeaderValueBlock (or the request construction). Each (sink, source) pair is discharged by a sink sanitiser or a source validator. (pool) after a pooled serialisation object (headerSorter) is handed back to its free list - send on a package-level channel of pointers, sync.Pool.Put, or a helper doing so - no path uses or returns the object or a value sharing its storage, so the header lines being written cannot be overwritten by a concurrent request. (body) the request on the wire is complete or Request.write says so: in transferWriter.WriteBody, in the bfe_http helpers the body is passed to and at the calls of those functions (Request.write), the error result of every call that consumes the request body (transferWriter.Body, a library wrapper of it such as io.LimitReader, or a parameter bound to it among its operands) is, on every path from the call to a return, either tested to be nil or the error returned (or replaced by a certainly non-nil error); a discarded result or one overwritten by the outcome of a later call (drain, Close) is reported, because body read errors are not sticky and persistConn.writeLoop reuses the backend connection when Write returns nil. Not covered: rewrites by modules between frontend and transport, delivery of errors that are stored into variables that escape (noted), write errors of the buffered backend writer (sticky, surfaced by Flush), SP inside an HTTP/2 :method, bare CR in HTTP/1 lines (the line reader only excludes LF), equality of forwarded and accepted fields, the Trailer announcement line (keys come from validated values).",
+			RuleText:    "obligations = sink shape/order/sanitiser instances, h2 validator path instances, origin of each Request field per frontend, 15 (sink operand, source) pairs, each free-list release site of bfe_http / textproto / bfe_bufio, each body-consuming call with an error result on the request write path",
 			Assumptions: []string{"net/url.ParseRequestURI rejects control bytes and (*url.URL).RequestURI() emits an escaped target", "bfe_bufio.Reader.ReadLine returns LF-free lines", "hpack delivers every decoded field to the emit function"},
 		},
 		Run: runC25,
@@ -41,6 +41,11 @@ func init() {
 			{Name: "sorter-released-by-producer", File: "bfe_http/header.go", Old: "	hs.kvs = kvs\n	sort.Sort(hs)\n	return kvs, hs", New: "	hs.kvs = kvs\n	sort.Sort(hs)\n	select {\n	case headerSorterCache <- hs:\n	default:\n	}\n	return kvs, nil", Expect: "pool-release|"},
 			{Name: "silent-release-through-helper", Silent: true, File: "bfe_http/header.go", Old: "	select {\n	case headerSorterCache <- sorter:\n	default:\n	}\n	return nil\n}\n", New: "	putHeaderSorter(sorter)\n	return nil\n}\n\nfunc putHeaderSorter(hs *headerSorter) {\n	select {\n	case headerSorterCache <- hs:\n	default:\n	}\n}\n"},
 			{Name: "silent-write-logging", Silent: true, File: "bfe_http/request.go", Old: "	// Header lines\n	fmt.Fprintf(w, \"Host: %s\\r\\n\", host)", New: "	// Header lines\n	hostLine := host\n	fmt.Fprintf(w, \"Host: %s\\r\\n\", hostLine)"},
+			{Name: "body-copy-error-discarded", File: "bfe_http/transfer.go", Old: "			ncopy, err = io.Copy(w, t.Body)\n", New: "			ncopy, _ = io.Copy(w, t.Body)\n", Expect: "body-error|bfe_http.transferWriter.WriteBody:io.Copy#2"},
+			{Name: "chunked-copy-error-overwritten", File: "bfe_http/transfer.go", Old: "			if err == nil {\n				err = cw.Close()\n			}\n", New: "			err = cw.Close()\n", Expect: "body-error|bfe_http.transferWriter.WriteBody:io.Copy"},
+			{Name: "limited-copy-error-overwritten-by-drain", File: "bfe_http/transfer.go", Old: "			ncopy, err = io.Copy(w, io.LimitReader(t.Body, t.ContentLength))\n			if err != nil {\n				return\n			}\n", New: "			ncopy, err = io.Copy(w, io.LimitReader(t.Body, t.ContentLength))\n", Expect: "body-error|bfe_http.transferWriter.WriteBody:io.Copy#3"},
+			{Name: "writebody-error-ignored", File: "bfe_http/request.go", Old: "	n, err := tw.WriteBody(w)\n	if err != nil {\n		return err\n	}\n", New: "	n, _ := tw.WriteBody(w)\n", Expect: "body-error|bfe_http.Request.write:"},
+			{Name: "silent-fixed-length-copy-in-helper", Silent: true, File: "bfe_http/transfer.go", Old: "			ncopy, err = io.Copy(w, io.LimitReader(t.Body, t.ContentLength))\n			if err != nil {\n				return\n			}\n			var nextra int64\n			nextra, err = io.Copy(ioutil.Discard, t.Body)\n			ncopy += nextra\n		}\n		if err != nil {\n			return\n		}\n		if err = t.BodyCloser.Close(); err != nil {\n			return\n		}\n	}\n\n	if !t.ResponseToHEAD && t.ContentLength != -1 && t.ContentLength != ncopy {\n		err = fmt.Errorf(\"http: Request.ContentLength=%d with Body length %d\",\n			t.ContentLength, ncopy)\n		return\n	}\n\n	// TODO(petar): Place trailer writer code here.\n	if chunked(t.TransferEncoding) {\n		// Last chunk, empty trailer\n		_, err = io.WriteString(w, \"\\r\\n\")\n	}\n\n	return\n}\n\n", New: "			ncopy, err = copyFixedLengthBody(w, t.Body, t.ContentLength)\n		}\n		if err != nil {\n			return\n		}\n		if err = t.BodyCloser.Close(); err != nil {\n			return\n		}\n	}\n\n	if !t.ResponseToHEAD && t.ContentLength != -1 && t.ContentLength != ncopy {\n		err = fmt.Errorf(\"http: Request.ContentLength=%d with Body length %d\",\n			t.ContentLength, ncopy)\n		return\n	}\n\n	// TODO(petar): Place trailer writer code here.\n	if chunked(t.TransferEncoding) {\n		// Last chunk, empty trailer\n		_, err = io.WriteString(w, \"\\r\\n\")\n	}\n\n	return\n}\n\n// copyFixedLengthBody copies the first length bytes of body to w. Anything\n// body yields beyond that is consumed and counted, but not written.\nfunc copyFixedLengthBody(w io.Writer, body io.Reader, length int64) (n int64, err error) {\n	n, err = io.Copy(w, io.LimitReader(body, length))\n	if err != nil {\n		return n, err\n	}\n	nextra, err := io.Copy(ioutil.Discard, body)\n	return n + nextra, err\n}\n\n"},
 		},
 	})
 }
@@ -245,6 +250,155 @@ func runC25(c *core.Ctx) {
 	c25Spdy(c, fx, st)
 	c25Matrix(c, st)
 	c25PoolRelease(c)
+	c25BodyErrors(c, fx)
+}
+
+// ------------------------------------------------------------ body copy errors are delivered
+
+// c25BodyErrors: Request.write tells its caller (persistConn.writeLoop) whether
+// the bytes on the backend connection form one complete request; after an
+// error the connection is not reused. A read error of the client body is not
+// sticky (a deadline that fires once), so the error result of every call that
+// consumes the body - a call with transferWriter.Body, a wrapper of it or a
+// parameter bound to it among its operands, in transferWriter.WriteBody and the
+// bfe_http helpers it passes the body to, and the calls of those functions -
+// must on every path to a return either be known to be nil or be (part of) the
+// error returned. An error that is dropped, or overwritten by the outcome of a
+// later call, leaves a truncated request on a connection that is reused: the
+// next forwarded request is read by the backend as the rest of this body.
+func c25BodyErrors(c *core.Ctx, fx *h1aFacts) {
+	const pkg = "bfe_http"
+	const rule = "body-error"
+	c.Min(rule, 4)
+	wb := c.P.Func(pkg, "transferWriter.WriteBody")
+	rw := c.P.Func(pkg, "Request.write")
+	bodyFld, _ := c.P.Obj(pkg, "transferWriter.Body").(*types.Var)
+	if wb == nil || rw == nil || bodyFld == nil {
+		c.Missing(pkg + ".transferWriter.WriteBody / Request.write / transferWriter.Body")
+		return
+	}
+	carries := map[*ssa.Function]map[int]bool{}
+	var carrying func(v ssa.Value, fn *ssa.Function, d int) bool
+	carrying = func(v ssa.Value, fn *ssa.Function, d int) bool {
+		v = core.StripConv(v)
+		if d > 6 {
+			return false
+		}
+		switch x := v.(type) {
+		case *ssa.UnOp:
+			if fa, ok := x.X.(*ssa.FieldAddr); ok && x.Op == token.MUL && core.FieldObj(fa.X, fa.Field) == bodyFld {
+				return true
+			}
+		case *ssa.Field:
+			return core.FieldObj(x.X, x.Field) == bodyFld
+		case *ssa.Parameter:
+			for i, p := range fn.Params {
+				if p == x && carries[fn][i] {
+					return true
+				}
+			}
+		case *ssa.Phi:
+			for _, e := range x.Edges {
+				if carrying(e, fn, d+1) {
+					return true
+				}
+			}
+		case *ssa.TypeAssert:
+			return carrying(x.X, fn, d+1)
+		case *ssa.Extract:
+			return carrying(x.Tuple, fn, d+1)
+		case *ssa.Call:
+			// a wrapper made by code outside the module (io.LimitReader, bufio.NewReader, io.TeeReader ...)
+			if sc := x.Call.StaticCallee(); sc != nil && core.FuncPkgRel(sc) == "" && sh1IsRef(x.Type()) {
+				for _, a := range x.Call.Args {
+					if carrying(a, fn, d+1) {
+						return true
+					}
+				}
+			}
+		}
+		return false
+	}
+	scope := []*ssa.Function{wb}
+	inScope := map[*ssa.Function]bool{wb: true}
+	for round := 0; round < 4; round++ {
+		for i := 0; i < len(scope) && len(scope) < 24; i++ {
+			fn := scope[i]
+			for _, ci := range core.AllCalls(fn) {
+				sc := ci.Common().StaticCallee()
+				if sc == nil || sc.Blocks == nil || core.FuncPkgRel(sc) != pkg {
+					continue
+				}
+				for ai, a := range ci.Common().Args {
+					if ai < len(sc.Params) && carrying(a, fn, 0) {
+						if carries[sc] == nil {
+							carries[sc] = map[int]bool{}
+						}
+						carries[sc][ai] = true
+						if !inScope[sc] {
+							inScope[sc] = true
+							scope = append(scope, sc)
+						}
+					}
+				}
+			}
+		}
+	}
+	n := map[string]int{}
+	for _, fn := range append(append([]*ssa.Function{}, scope...), rw) {
+		c.Analysed(core.FuncKey(fn))
+		core.Instrs(fn, func(in ssa.Instruction) {
+			ci, isCI := in.(ssa.CallInstruction)
+			if !isCI {
+				return
+			}
+			cc := ci.Common()
+			consumes := false
+			vals := append([]ssa.Value{}, cc.Args...)
+			if cc.IsInvoke() {
+				vals = append(vals, cc.Value)
+			}
+			for _, a := range vals {
+				if carrying(a, fn, 0) {
+					consumes = true
+				}
+			}
+			if sc := cc.StaticCallee(); sc != nil && inScope[sc] {
+				consumes = true
+			}
+			res := cc.Signature().Results()
+			if !consumes || res.Len() == 0 || !h1cIsErrorType(res.At(res.Len()-1).Type()) {
+				return
+			}
+			key := h1bOrd(uuShort(fn)+":"+core.CalleeKey(cc), n)
+			what := "the error of " + core.CalleeKey(cc) + " (it consumes the request body) in " + uuShort(fn)
+			tail := ": a body read error that does not repeat (a client read deadline that fires once) is then not reported by Request.Write, the backend connection is kept for reuse with an incomplete request on it and the next forwarded request is taken as the rest of this body"
+			call, isCall := in.(*ssa.Call)
+			if !isCall {
+				c.Check(rule, key, in.Pos(), false, what+" is dropped (go / defer)"+tail)
+				return
+			}
+			e, _ := h1cErrResult(call)
+			if e == nil {
+				c.Check(rule, key, in.Pos(), false, what+" is discarded: the result is never used (assigned to _ or overwritten before any use)"+tail)
+				return
+			}
+			if h1cEscapes(e) {
+				c.Check(rule, key, in.Pos(), true, "")
+				c.Note("%s: the error is stored / passed on; its delivery is not followed", key)
+				return
+			}
+			lost, why, complete := h1cErrLost(call, e, fx)
+			switch {
+			case lost != nil:
+				c.Check(rule, key, in.Pos(), false, what+" can be non-nil on a path to the return at "+c.P.Pos(lost.Pos())+" where "+why+" instead of that error"+tail)
+			case !complete:
+				c.Check(rule, key, in.Pos(), false, what+": too many paths to the returns to establish that it is delivered")
+			default:
+				c.Check(rule, key, in.Pos(), true, "")
+			}
+		})
+	}
 }
 
 // ------------------------------------------------------------ pooled serialisation buffers
